@@ -46,10 +46,11 @@ type cfgSpec struct {
 	friends          int
 	listeners        int // ports the first router listens on (second router dials the first port)
 	jsonState        bool
+	api              bool // system.apiListen on a free loopback port (API + dashboard without a tun interface)
 }
 
 func (c cfgSpec) String() string {
-	return fmt.Sprintf("universe=%q secret=%q lite=%v stub=%v services=%d friends=%d listeners=%d jsonState=%v", c.universe, c.secret, c.lite, c.stub, c.services, c.friends, c.listeners, c.jsonState)
+	return fmt.Sprintf("universe=%q secret=%q lite=%v stub=%v services=%d friends=%d listeners=%d jsonState=%v apiListen=%v", c.universe, c.secret, c.lite, c.stub, c.services, c.friends, c.listeners, c.jsonState, c.api)
 }
 
 func freePort() int {
@@ -80,6 +81,9 @@ func mkStore(c cfgSpec, id *m.Address, listen []int, connect int, dir string, ta
 	}
 	for i := 0; i < c.friends; i++ {
 		st.FriendConfigs = append(st.FriendConfigs, config.FriendConfig{Name: fmt.Sprintf("friend%d", i), IP: pool[5+i].IP.String()})
+	}
+	if c.api {
+		st.System.APIListen = fmt.Sprintf("127.0.0.1:%d", freePort())
 	}
 	if c.jsonState {
 		st.System.StatePath = filepath.Join(dir, "state-"+tag+".json")
@@ -124,7 +128,7 @@ type history []string // N = new both, S = start both, P = wait for peering, X =
 func TestC20(t *testing.T) {
 	env := kit.GetEnv()
 	rep := kit.NewReport("C20", env)
-	rep.Rule = "configurations: universe {'', 'u'} x secret {'', 's'} x lite x stub x services {0,1} x friends {0,1} x listeners {1,2 loopback ports} x state storage {memory, json file} (quick: a covering subset of ~20, thorough: all 256) for a pair of real relay-only instances (second dials the first); histories: every well-formed word over {New, Start, Peer, Stop (sequential), Stop (both concurrently)} of up to 3 cycles from a fixed family (start-stop, start-peer-stop, construct-only, stop-without-start, double stop, and their repetitions) in one process; observed: panics/errors of New/Start, link on both sides, return value of Stop, goroutine count back to the pre-New baseline after every cycle; non-trivial = every case (each has >= 1 full cycle); distinct = distinct (configuration, history)"
+	rep.Rule = "configurations: universe {'', 'u'} x secret {'', 's'} x lite x stub x services {0,1} x friends {0,1} x listeners {1,2 loopback ports} x state storage {memory, json file} x API listener {none, free loopback port} (quick: a pairwise-covering subset of 24, thorough: all 512) for a pair of real relay-only instances (second dials the first); histories: every well-formed word over {New, Start, Peer, Stop (sequential), Stop (both concurrently)} of up to 3 cycles from a fixed family (start-stop, start-peer-stop, construct-only, stop-without-start, double stop, and their repetitions) in one process; observed: panics/errors of New/Start, link on both sides, return value of Stop, goroutine count back to the pre-New baseline after every cycle; non-trivial = every case (each has >= 1 full cycle); distinct = distinct (configuration, history)"
 	rep.Assumptions = []string{
 		"this check runs on real loopback TCP in real time: goroutine schedules are NOT controlled; the property is quantified over configurations and histories only, which are enumerated exhaustively",
 		"waiting uses monotone conditions polled under a 30 s ceiling; no short wall-clock oracle is used",
@@ -139,20 +143,22 @@ func TestC20(t *testing.T) {
 						for _, fr := range []int{0, 1} {
 							for _, ls := range []int{1, 2} {
 								for _, js := range []bool{false, true} {
-									c := cfgSpec{u, s, lite, stub, sv, fr, ls, js}
-									if !env.Thorough() {
-										// covering subset: every pair of option values appears.
-										h := 0
-										for i, b := range []bool{u != "", s != "", lite, stub, sv == 1, fr == 1, ls == 2, js} {
-											if b {
-												h ^= (i + 1) * 37
+									for _, api := range []bool{false, true} {
+										c := cfgSpec{u, s, lite, stub, sv, fr, ls, js, api}
+										if !env.Thorough() {
+											// covering subset (24 of 512): every pair of option values appears.
+											h := 0
+											for i, b := range []bool{u != "", s != "", lite, stub, sv == 1, fr == 1, ls == 2, js, api} {
+												if b {
+													h ^= (i + 1) * 37
+												}
+											}
+											if h%19 != 1 {
+												continue
 											}
 										}
-										if h%11 > 0 {
-											continue
-										}
+										cfgs = append(cfgs, c)
 									}
-									cfgs = append(cfgs, c)
 								}
 							}
 						}
